@@ -36,6 +36,11 @@ def cases(tier, seed):
                         draws=draws(n, bt) + 2))
         out.append(dict(kind="nonstatio", dim=2, n=n, b=bt, nb=None, bb=None, nt=nt, bt=bt, cart=False, seed=sd + bt,
                         draws=draws(n, bt) + 2))
+    # the product / pairing flag given as a numpy bool or an integer (what a configuration file or an array comparison yields)
+    for j, (cart, form) in enumerate(((False, "np"), (False, "int"), (True, "np"), (True, "int"))):
+        bt = 2
+        out.append(dict(kind="nonstatio", dim=2, n=3, b=bt, nb=12, bb=bt, nt=4, bt=bt, cart=cart, cartform=form, seed=sd + 50 + j, draws=4))
+        out.append(dict(kind="nonstatio", dim=1, n=3, b=bt, nb=2, bb=2, nt=4, bt=bt, cart=cart, cartform=form, seed=sd + 60 + j, draws=4))
     return out
 
 
